@@ -32,6 +32,7 @@ func init() {
 		&Rule{ID: "PG-ERR", Doc: "no error returned inside package parser is discarded", Run: rulePGErr, Min: 10},
 		&Rule{ID: "PG-TERMS", Doc: "every scalar term the parser produces has the type of the grammar alternative it was read from and is computed from that alternative's text only (Integer from Integer, String from String, Variable from Variable, Bool from Bool, Date from Date, Bytes from Bytes)", Run: rulePGTerms, Min: 6},
 		&Rule{ID: "PG-LITERAL", Doc: "malformed literals, variables in sets and unbound parameters are reported on every path", Run: rulePGLiteral, Min: 3},
+		&Rule{ID: "PR-TERMTEXT", Doc: "the text of byte, integer and boolean terms is the grammar's literal of the whole value on every path: hex: followed by the hex encoding of all bytes, %d, %t", Run: rulePRTermText, Min: 3},
 		&Rule{ID: "PR-FORMAT", Doc: "no printed content is used as a format: every format string of the fmt functions called in the repository is a constant (or an entry of a package-level table of constants)", Run: rulePRFormat, Min: 20},
 		&Rule{ID: "PR-TABLE", Doc: "a token prints each of its blocks with the token-wide symbol table itself (the one the authorizer resolves with), and the block printers resolve with the table they were given", Run: rulePRTable, Min: 4},
 		&Rule{ID: "PR-OPSYM", Doc: "the printer's symbol for every operator is the one the parser reads for it", Run: rulePROpSym, Min: 20},
@@ -736,7 +737,8 @@ func rulePRKeyword(p *Prog, r *Reporter) {
 			continue
 		}
 		fn := p.method(t, "String")
-		r.Check(hasLit(literalsOf(p, fn), q.lit), p.Pos(fn.Pos()), p.FuncName(fn), "prints "+q.lit, "literal form the lexer reads", "datalog."+q.typ+" is not printed as "+q.lit)
+		lits := literalsOf(p, fn)
+		r.Check(hasLit(lits, q.lit) || (q.typ == "Bytes" && hasLit(lits, "hex:")), p.Pos(fn.Pos()), p.FuncName(fn), "prints "+q.lit, "literal form the lexer reads", "datalog."+q.typ+" is not printed as "+q.lit)
 	}
 	if t := p.NamedType("datalog", "Date"); t != nil && p.method(t, "String") != nil {
 		fn := p.method(t, "String")
@@ -1814,5 +1816,84 @@ func rulePRFormat(p *Prog, r *Reporter) {
 				r.Check(constant(c.Common().Args[idx], 0), p.instrPos(in), p.FuncName(fn), "format of "+calleeName(f), "constant format string", "the format argument of "+calleeName(f)+" is computed ("+p.D(c.Common().Args[idx])+"): text that comes from a token or from the caller is interpreted as a format, so a '%' in a string literal garbles the printed block (and an error message)")
 			}
 		}
+	}
+}
+
+// rulePRTermText: the predicate and expression printers fall back on Term.String for byte arrays,
+// integers and booleans, so these String methods *are* Datalog syntax. Every return must be the one
+// Sprintf of the grammar's literal applied to the whole receiver (a shortened or decorated text - an
+// elided payload, a thousands separator - does not parse back, or parses to another value).
+func rulePRTermText(p *Prog, r *Reporter) {
+	globalP = p
+	for _, k := range []struct{ typ, format string }{{"Bytes", "hex:%s"}, {"Integer", "%d"}, {"Bool", "%t"}} {
+		t := p.NamedType("datalog", k.typ)
+		var fn *ssa.Function
+		if t != nil {
+			fn = p.method(t, "String")
+		}
+		if fn == nil || len(fn.Params) == 0 {
+			r.Dunno("?", "datalog."+k.typ, "String", "not found")
+			continue
+		}
+		name := p.FuncName(fn)
+		recv := ssa.Value(fn.Params[0])
+		isRecv := func(v ssa.Value) bool {
+			for i := 0; i < 4; i++ {
+				switch x := v.(type) {
+				case *ssa.MakeInterface:
+					v = x.X
+					continue
+				case *ssa.ChangeType:
+					v = x.X
+					continue
+				case *ssa.Convert:
+					v = x.X
+					continue
+				}
+				break
+			}
+			return v == recv
+		}
+		n := 0
+		for _, b := range fn.Blocks {
+			ret := blockReturn(b)
+			if ret == nil || len(ret.Results) != 1 {
+				continue
+			}
+			n++
+			ok, why := false, "the returned text is not a fmt.Sprintf of the literal"
+			if c, isC := retVal(ret, 0).(*ssa.Call); isC && isCallTo(&c.Call, "fmt.Sprintf") && len(c.Call.Args) == 2 {
+				format, isK := constString(c.Call.Args[0])
+				elems, okE := variadicElems(c.Call.Args[1])
+				switch {
+				case !isK || format != k.format:
+					why = fmt.Sprintf("the format is %q, the grammar's literal is %q", format, k.format)
+				case !okE || len(elems) != 1:
+					why = "the format does not receive exactly one operand"
+				case k.typ == "Bytes":
+					if hc, isH := unwrap(elems[0]).(*ssa.Call); isH && isCallTo(&hc.Call, "encoding/hex.EncodeToString") && len(hc.Call.Args) == 1 && isRecv(hc.Call.Args[0]) {
+						ok = true
+					} else {
+						why = "the operand is not hex.EncodeToString of the whole byte array"
+					}
+				default:
+					if isRecv(elems[0]) {
+						ok = true
+					} else {
+						why = "the operand is not the term's own value"
+					}
+				}
+			}
+			// the same text built by concatenation: "hex:" + hex.EncodeToString(b)
+			if bo, isB := retVal(ret, 0).(*ssa.BinOp); !ok && isB && bo.Op == token.ADD && k.typ == "Bytes" {
+				if pre, isK := constString(bo.X); isK && pre == "hex:" {
+					if hc, isH := bo.Y.(*ssa.Call); isH && isCallTo(&hc.Call, "encoding/hex.EncodeToString") && len(hc.Call.Args) == 1 && isRecv(hc.Call.Args[0]) {
+						ok = true
+					}
+				}
+			}
+			r.Check(ok, p.instrPos(ret), name, "text of a "+k.typ+" term", "the grammar's literal "+strconv.Quote(k.format)+" of the whole value", "datalog."+k.typ+".String, which the predicate and expression printers use as Datalog syntax: "+why+" - the printed block does not parse back to the term that is enforced")
+		}
+		r.Check(n > 0, p.Pos(fn.Pos()), name, "returns", "String has a return", "no return found")
 	}
 }
